@@ -260,12 +260,21 @@ def run_harness(args, stdin_path=None, timeout_s=3600, env=None):
         raise ToolError("harness summary unparsable: %s" % lines[-1][:500])
 
 
+def _run_harness_retry(args, timeout_s, env):
+    # a harness (not a property) failure is retried once: e.g. a transient spawn error under load
+    try:
+        return run_harness(args, None, timeout_s, env)
+    except ToolError as e:
+        log("[harness] retrying after: %s" % str(e)[:600])
+        return run_harness(args, None, timeout_s, env)
+
+
 def run_harness_parallel(make_args, inputs, jobs=12, timeout_s=3600, env=None):
     """Run the harness over several input files in parallel, merge summaries."""
     import concurrent.futures as cf
     outs = []
     with cf.ThreadPoolExecutor(max_workers=jobs) as ex:
-        futs = [ex.submit(run_harness, make_args(i), None, timeout_s, env) for i in inputs]
+        futs = [ex.submit(_run_harness_retry, make_args(i), timeout_s, env) for i in inputs]
         for f in futs:
             outs.append(f.result())
     return merge_summaries(outs)
